@@ -128,6 +128,54 @@ theorem flushAll_empties (c : Cfg) (gs : List Group) (f : Fail) (h : (flushAllSt
       rw [he] at h
       exact hne h
 
+/-- the walk of FlushAll never keeps the group it started with -/
+theorem openAll_cons_sublist (c : Cfg) (f : Fail) (g : Group) (rest : List Group) :
+    (openAll c f (g :: rest)).1.Sublist rest := by
+  unfold openAll
+  cases hg : (openGate c f g).2 with
+  | false => simp only [hg, Bool.false_eq_true, if_false]; exact List.Sublist.refl _
+  | true => simp only [hg, if_true]; exact openAll_sublist c f rest
+
+/-- **A failing FlushAll / Close still makes progress**: whatever fails (composition, a Gateable
+composite, the Broker's Send), a call on a non-empty gate leaves strictly fewer groups than it found
+— the group whose gate failed to open is gone, none is added. -/
+theorem flushAll_progress (c : Cfg) (gs : List Group) (f : Fail) (h : gs ≠ []) :
+    (flushAllStep c gs f).1.length < gs.length := by
+  unfold flushAllStep
+  cases gs with
+  | nil => exact absurd rfl h
+  | cons g rest =>
+    simp only [List.isEmpty_cons, Bool.false_eq_true, if_false]
+    cases hb : c.broker with
+    | false => simp
+    | true =>
+      simp only [Bool.not_true, Bool.false_eq_true, if_false]
+      have := (openAll_cons_sublist c f g rest).length_le
+      simp only [List.length_cons]
+      omega
+
+/-- the gate after a series of FlushAll / Close calls, each with its own failures -/
+def flushes (c : Cfg) (gs : List Group) (fs : List Fail) : List Group :=
+  fs.foldl (fun gs f => (flushAllStep c gs f).1) gs
+
+/-- **So nothing lingers for ever, even under failures**: as many FlushAll / Close calls as there
+are groups in the gate empty it, whatever each of them reports and whichever group each of them
+fails on; further calls keep it empty. -/
+theorem flushes_empty (c : Cfg) (fs : List Fail) : ∀ gs : List Group, gs.length ≤ fs.length → flushes c gs fs = [] := by
+  induction fs with
+  | nil => intro gs h; simpa [flushes] using h
+  | cons f fs ih =>
+    intro gs h
+    have hstep : flushes c gs (f :: fs) = flushes c (flushAllStep c gs f).1 fs := rfl
+    rw [hstep]
+    apply ih
+    cases gs with
+    | nil => simp [flushAllStep]
+    | cons g rest =>
+      have := flushAll_progress c (g :: rest) f (by simp)
+      simp only [List.length_cons] at h this ⊢
+      omega
+
 theorem close_is_flushAll (c : Cfg) (gs : List Group) (f : Fail) : step c gs (.close f) = step c gs (.flushAll f) := rfl
 
 /-- Non-vacuity: three open groups, two of them expired at the next event; FlushAll afterwards. -/
@@ -138,6 +186,10 @@ example : Succeeded (step ⟨true, 10⟩ demoGs (.ev 14 3 false 20 {})).2 := Or.
 example : (step ⟨true, 10⟩ demoGs (.flushAll {})).2.ret = .ok ∧ (step ⟨true, 10⟩ demoGs (.flushAll {})).1 = [] := by decide
 example : (step ⟨true, 10⟩ demoGs (.flushAll { sf := 2 })).2.ret = .errSend ∧
     (step ⟨true, 10⟩ demoGs (.flushAll { sf := 2 })).1 = [⟨3, [13], 40⟩] := by decide
+
+-- three groups, each call failing on a different one: three calls empty the gate, two do not
+example : flushes ⟨true, 10⟩ demoGs [{ sf := 1 }, { cf := 2 }, { cg := 3 }] = [] ∧
+    flushes ⟨true, 10⟩ demoGs [{ sf := 1 }, { cf := 2 }] = [⟨3, [13], 40⟩] := by decide
 
 /-- **The model's steps are the code's critical sections** (regenerated from filters/gated/gated.go on
 every run): `Close` and `FlushAll` each take the filter's lock once and keep it until they return
